@@ -111,6 +111,9 @@ MUTANTS = [
     dict(id="M211", expect=["C20", "C18"], file=D, old="CipherChoice::AESGCM => Some(Box::<CipherAesGcm>::default()),", new="CipherChoice::AESGCM => Some(Box::<CipherChaChaPoly>::default()),", note="default resolver hands out ChaChaPoly for AESGCM"),
     dict(id="M213", expect=["C05", "C04"], file=T, old="                if self.initiator { &mut self.cipherstates.1 } else { &mut self.cipherstates.0 };\n            cipher.decrypt(message, payload)", new="                if self.initiator { &mut self.cipherstates.0 } else { &mut self.cipherstates.1 };\n            cipher.decrypt(message, payload)", note="stateful read uses the sending cipher state"),
     dict(id="M214", expect=["C08"], file=H, old="        symmetricstate.initialize(&params.name);", new="        symmetricstate.initialize(&params.name.to_uppercase());", note="protocol name case-folded before hashing"),
+    dict(id="M215", expect=["C07"], file=H, old="                Token::S => {\n                    let data = if self.symmetricstate.has_key() {\n                        if ptr.len() < pub_len + TAGLEN {", new="                Token::S => {\n                    if self.rs.is_on() && !self.symmetricstate.has_key() && ptr.len() >= pub_len && self.rs[..pub_len] != ptr[..pub_len] {\n                        return Err(Error::Decrypt);\n                    }\n                    let data = if self.symmetricstate.has_key() {\n                        if ptr.len() < pub_len + TAGLEN {", note="'pinning': a cleartext static key that differs from the one already held is refused — but a failed read leaves rs switched on, so the retried genuine message is refused too"),
+    dict(id="M216", expect=["C12"], file=B, old="if v.len() > rs_buf.len() {", new="if v.len() > rs_buf.len() || v.len() > s.priv_len() {", note="remote public key bounded by the private key length: a 65-byte P-256 key no longer builds"),
+    dict(id="M217", expect=["C12", "C10"], file=B, old="if fixed_k.len() > e_dh.priv_len() {", new="if fixed_k.len() > e_dh.pub_len() {", note="fixed ephemeral private key bounded by the public key length"),
     # ---- C19
     dict(id="M130", expect=["C19"], file=S, old="            self.cipherstate.decrypt_ad(&self.inner.h[..hash_len], data, out)?\n", new="            match self.cipherstate.decrypt_ad(&self.inner.h[..hash_len], data, out) {\n                Ok(n) => n,\n                Err(e) => {\n                    let n = out.len().min(data.len());\n                    out[..n].copy_from_slice(&data[..n]);\n                    return Err(e);\n                },\n            }\n", note="on failure the ciphertext is copied out (not plaintext, but a new writer of `out` on the error path)"),
     # ---- C20
